@@ -70,6 +70,12 @@ def run(ctx):
     while ctx.time_left():
         n += 1
         r = n % 10
+        if n % 97 == 0:
+            # few characters, many octets: short names in front of 14-30 four-octet characters (line, stream and component path)
+            wide = rng.choice(("\U0001F600", "\U00010348")) * rng.randrange(14, 31)
+            ctx.check(("line", rng.choice(("N:", "UID:", "TZID:", "X:")) + wide), "random")
+            ctx.check(("lines", (rng.choice(("NAME:", "COLOR:", "X:")) + wide, "L2:" + wide)), "streams")
+            ctx.check(("component", wide, wide[: rng.randrange(1, len(wide))], rng.randrange(0, 5)), "components")
         if r < 6:
             if n % 4 == 0:
                 # no name in front: the line starts with whatever character comes first (not SP/HTAB, S23), e.g. U+FEFF or a combining mark
@@ -132,6 +138,9 @@ def check_case(ctx, case):
         a.params["CN"] = pval
         ev.add("attendee", a)
         ev.add("x-long", "x" * pad + pval)
+        ev.add("uid", summary)                  # short names too: few characters in front of the value
+        ev.add("x", pval)
+        cal.add("name", summary)
         cal.add_component(ev)
         ctx.nontrivial(True)
         data = cal.to_ical()
